@@ -277,3 +277,104 @@ func verifC03_deflate() {
 	c.CloseNow()
 	vObserve("deflate", len(g.msgs), vWireSummary(t.out))
 }
+
+// C03.raw: an endpoint reads an arbitrary byte string of N bytes (then the transport ends) in a chosen chunking; what it
+// delivers, answers and where it fails is compared with the reference receiver applied to the frames an independent
+// parser finds in those bytes. Non-minimal length encodings are excluded (the property leaves them unspecified).
+func verifC03_raw() {
+	client := vParam("client", 1) == 1
+	deflate := vParam("deflate", 0)
+	vInstallRand()
+	N := vChoose("N", vParam("maxN", 4)+1)
+	raw := vBytes("raw", N)
+	// reference parse
+	var frames []vFrame
+	var extraPartial []byte
+	pos := 0
+	incomplete := false
+	for pos < N {
+		h, size, st := vRefDecodeHeader(raw[pos:])
+		if st == vRefIncomplete {
+			incomplete = true
+			break
+		}
+		if st == vRefBadLength {
+			// a violation on its own: a frame with an impossible length
+			frames = append(frames, vFrame{fin: true, opcode: 3})
+			break
+		}
+		// minimal encoding only
+		if (raw[pos+1]&0x7f) == 126 && h.length < 126 || (raw[pos+1]&0x7f) == 127 && h.length < 65536 {
+			vAssume(false)
+		}
+		if h.length > uint64(N-pos-size) {
+			// the header is complete but the payload is not: the reference stops here; only header-level violations count
+			f := vFrame{fin: h.fin, rsv1: h.rsv1, rsv2: h.rsv2, rsv3: h.rsv3, opcode: h.opcode, masked: h.masked, key: h.key}
+			hv := vRefReceive(append(append([]vFrame{}, frames...), f), client, deflate != 0)
+			if hv.failed && hv.failAt == len(frames) && !(f.opcode == 8) {
+				frames = append(frames, f)
+			} else {
+				incomplete = true
+				if f.opcode < 8 {
+					// the payload bytes that did arrive are a legitimate prefix of the message in progress
+					for i := pos + size; i < N; i++ {
+						extraPartial = append(extraPartial, raw[i]^vIteU8(h.masked, h.key[(i-pos-size)%4], 0))
+					}
+				}
+			}
+			break
+		}
+		n := int(h.length)
+		f := vFrame{fin: h.fin, rsv1: h.rsv1, rsv2: h.rsv2, rsv3: h.rsv3, opcode: h.opcode, masked: h.masked, key: h.key}
+		f.payload = make([]byte, n)
+		for i := 0; i < n; i++ {
+			f.payload[i] = raw[pos+size+i] ^ vIteU8(h.masked, h.key[i%4], 0)
+		}
+		frames = append(frames, f)
+		pos += size + n
+	}
+	t := vNewTransport(raw)
+	t.step = vChoose("step", 2)
+	c := vNewConn(t, client, vCopts(deflate), 16, 256)
+	g := vReadLoop(c, 3, N+1)
+	e := vRefReceive(frames, client, deflate != 0)
+	if !e.failed && !e.closeRecv {
+		e.partial = append(append([]byte{}, e.partial...), extraPartial...)
+	}
+	vReach("C03.raw.compared")
+	vAssert(g.err != nil, "C03.raw.ends-with-error")
+	if len(e.msgs) > 0 {
+		vReach("C03.raw.message")
+	}
+	if e.failed {
+		vReach("C03.raw.violation")
+	}
+	_ = incomplete
+	// compressed payloads made of arbitrary bytes are malformed DEFLATE almost surely: only termination and no panic there
+	compressedSeen := false
+	for _, f := range frames {
+		if f.rsv1 {
+			compressedSeen = true
+		}
+	}
+	if !compressedSeen {
+		vCheckDelivered(g, e, "C03.raw")
+		frs, ok := vParseWritten(t.out)
+		vAssert(ok, "C03.raw.written-wellformed")
+		var pongs [][]byte
+		for _, f := range frs {
+			if f.opcode == 10 {
+				pongs = append(pongs, f.payload)
+			}
+		}
+		pk := len(pongs) == len(e.pongs)
+		if pk {
+			for i := range pongs {
+				pk = vAnd(pk, vEqBytes(pongs[i], e.pongs[i]))
+			}
+		}
+		vAssert(pk, "C03.raw.pongs")
+	}
+	c.CloseNow()
+	vObserve("raw", raw, len(g.msgs), vWireSummary(t.out))
+}
